@@ -83,6 +83,27 @@ def rotating_fc_word(n_fc: int, i: int) -> str:
     return "".join("1" if (i >> j) & 1 == 0 else "0" for j in range(n_fc))
 
 
+def pmap_until(fn, items, deadline: float, chunk: int = 12000):
+    """bc.pmap over a prefix of `items`: no new chunk is started after `deadline` (time.time()).  The first chunk is
+    always run.  Callers zip the (possibly shorter) result list with their inputs and must not claim exhaustiveness
+    when it is shorter."""
+    out = []
+    for i in range(0, len(items), chunk):
+        if out and time.time() > deadline:
+            break
+        out.extend(bc.pmap(fn, items[i:i + chunk]))
+    return out
+
+
+def deadline_for(tier: str, t_start: float) -> float:
+    """wall-clock budget of one property (README: quick <= ~40 s, thorough <= ~8 min), with a margin for reporting"""
+    return t_start + (25.0 if tier == "quick" else 380.0)
+
+
+def cut_note(n_done: int, n_all: int) -> str:
+    return "" if n_done == n_all else f" [time budget reached: only the first {n_done} of {n_all} items were run]"
+
+
 class Violations:
     """keeps the smallest few failing inputs of one clause; each is re-run on the real code before it is reported"""
 
@@ -105,9 +126,9 @@ class Violations:
                 self.ctx.note(f"{self.clause}: failing input {sig} did not reproduce on re-run (not reported)")
                 continue
             wit = dict(wit, observed_on_replay=again)
-            self.ctx.violation(obligation=f"bounded/{self.clause}", message=msg, witness=wit, replayed=True,
-                               signature=sig, replay_code=code)
-            reported += 1
+            reported += 1  # one replay file per witness (the report layer names the file after the obligation)
+            self.ctx.violation(obligation=f"bounded/{self.clause}/witness-{reported}", message=msg, witness=wit,
+                               replayed=True, signature=sig, replay_code=code)
         return reported
 
 
@@ -116,14 +137,15 @@ def _expected(tree: ts.Tree, rc_keys, rc_word: str):
     return ts.outcome(ts.spec_cf(tree, ts.decode_asg(rc_keys, rc_word)))
 
 
-def check_trees(ctx, name: str, trees: List[ts.Tree], exhaustive: bool, bound: str) -> None:
+def check_trees(ctx, name: str, trees: List[ts.Tree], exhaustive: bool, bound: str, deadline: float) -> None:
     t0 = time.time()
     bc.configure_inject()
     items = []
     for i, t in enumerate(trees):
         n_fc = len(ts.keys_of(t, ts.FC))
         items.append(make_item(t, [(w, rotating_fc_word(n_fc, i + j)) for j, w in enumerate(rc_words(t))]))
-    results = bc.pmap(eval_item, items)
+    results = pmap_until(eval_item, items, deadline)
+    exhaustive, bound = exhaustive and len(results) == len(items), bound + cut_note(len(results), len(items))
     viol = Violations(ctx, name)
     evaluations, distinct, seen, samples, candidates = 0, 0, set(), [], 0
     for t, item, res in zip(trees, items, results):
@@ -161,18 +183,22 @@ def run(ctx, tier: str, seed: int) -> None:
     ctx.trust("A-LARK-RESOLVE (grouping of the rendered text is the tree it was rendered from: C01)")
     ctx.assume("content-evaluation-result based evaluators return the assigned state of every requirement key")
     rng = random.Random(seed)
+    deadline = deadline_for(tier, time.time())
     leaves = ts.default_leaves()
     max_n = 3 if tier == "quick" else 4
     by_n = ts.enumerate_trees(max_n, leaves)
     small = [t for n in range(1, 4) for t in by_n[n] if ts.valid(t)]
     check_trees(ctx, "outcome==spec/<=3-leaves", small, True,
-                "all valid in-domain trees with <=3 leaves over keys 1,2,3/501,502/901,902 x all 3^k assignments")
+                "all valid in-domain trees with <=3 leaves over keys 1,2,3/501,502/901,902 x all 3^k assignments",
+                deadline)
     if tier != "quick":
         four = [t for t in by_n[4] if ts.valid(t)]
         budget = 120000
         exhaustive = len(four) <= budget
         if not exhaustive:
             four = rng.sample(four, budget)
+        else:
+            rng.shuffle(four)  # so that a prefix cut off by the time budget is a seeded sample
         check_trees(ctx, "outcome==spec/4-leaves", four, exhaustive,
                     f"{'all' if exhaustive else 'seeded sample of ' + str(budget)} valid in-domain trees with 4 leaves "
-                    "x all 3^k assignments")
+                    "x all 3^k assignments", deadline)
